@@ -29,7 +29,7 @@ MANIFEST = dict(
 ALPHA = ['a', 'b', 'c', ' ', ' ', '\t', ' ', '　']
 MODES = ['aligned', 'diffuse', 'short', 'absent', 'legacy', 'nowindow', 'tight', 'exact']
 MINCONF = [0.0, 0.5]
-BASELINES = ['straight2', 'slanted4', 'speck']
+BASELINES = ['straight2', 'slanted4', 'speck', 'dot', 'rtl3']
 AR = ['ب', 'ا', 'x', '1', ' ', '\u00a0', '\t']
 ORD = ['ب', 'ا', 'x', '1', ' ', '.', '،']
 CHARSET = ['a', 'b', ' ', '​']
@@ -210,6 +210,10 @@ def make_line(lid, text, mode, y=50, baseline='straight2', charset=CHARSET, x0=2
         bl = np.asarray([[x0, y], [x1, y]], dtype=float)
     elif baseline == 'speck':           # a degenerate one-pixel baseline (two identical points): export must still succeed
         bl = np.asarray([[x0 + 40, y], [x0 + 40, y]], dtype=float)
+    elif baseline == 'dot':             # a baseline one pixel long: the crop grid under the line has no columns at all
+        bl = np.asarray([[x0 + 40, y], [x0 + 41, y]], dtype=float)
+    elif baseline == 'rtl3':            # a baseline running from right to left (a page scanned upside down): word positions decrease along the line
+        bl = np.asarray([[x1, y], [(x0 + x1) / 2.0, y], [x0, y]], dtype=float)
     else:
         bl = np.asarray([[x0, y], [x0 + 90, y + 9], [x0 + 180, y + 19], [x0 + 270.4, y + 30.9]], dtype=float)
     poly = np.asarray([[x0, y - 20], [x1, y - 20], [x1, y + 12], [x0, y + 12]], dtype=float)
@@ -415,8 +419,11 @@ def check_text(case, ctx):
         first = make_line('r1-l000', 'b a', 'aligned', y=120)
         if cs is CHARSET_PERMUTED:
             ctx.tag('lines-with-different-character-tables')
-        page = make_page([('r1', REGION_BOXES[1], [first, line])])
-        desc = f'transcription {text!r} mode={mode} min_conf={minconf} baseline={bshape}'
+        if 'cfg' not in case and ((bi == 3 and len(case['text']) > 2) or (bi == 4 and (len(case['text']) > 3 or mode not in ('aligned', 'absent', 'diffuse')))):
+            continue                        # the two extra baseline shapes: texts of up to two (one-pixel) / three (right-to-left) symbols
+        # (the tested line is the first line of its block for every second baseline shape, the second one otherwise)
+        page = make_page([('r1', REGION_BOXES[1], [line, first] if bi % 2 else [first, line])])
+        desc = f'transcription {text!r} mode={mode} min_conf={minconf} baseline={bshape}' + (' (first line of its block)' if bi % 2 else '')
         doc = check_export(page, minconf, ctx, f'{ID}/{mode}', desc, sub)
         if doc is None:
             continue
